@@ -121,10 +121,24 @@ func c01PErr(rc *RuleCtx) {
 						if c, ok := o.(*types.Const); ok && c.Val().Kind() == constant.String && constant.StringVal(c.Val()) == "" {
 							return "empty"
 						}
+						// a copy made once and never assigned again (the parameter bindings of an inlined helper: `vfs, op, name := vfs, "lchown", name`)
+						if init := singleDef(info, fd, o); init != nil && depth < 6 {
+							return classify(init, depth+1)
+						}
 						return "local " + x.Name
 					case *ast.SelectorExpr:
-						if id, ok := ast.Unparen(x.X).(*ast.Ident); ok && recvObj != nil && info.Uses[id] == recvObj && x.Sel.Name == "name" && t.file {
-							return "handle-name"
+						if id, ok := ast.Unparen(x.X).(*ast.Ident); ok && recvObj != nil && x.Sel.Name == "name" && t.file {
+							o := info.Uses[id]
+							for d := 0; o != nil && o != recvObj && d < 6; d++ {
+								init, _ := ast.Unparen(orNil(singleDef(info, fd, o))).(*ast.Ident)
+								if init == nil {
+									break
+								}
+								o = info.Uses[init]
+							}
+							if o == recvObj {
+								return "handle-name"
+							}
 						}
 						return "selector " + types.ExprString(x)
 					case *ast.CallExpr:
@@ -265,7 +279,14 @@ func opValues(info *types.Info, fd *ast.FuncDecl, op ast.Expr) (vals []opVal, ok
 			if !isIf {
 				return true
 			}
-			if is.Body.Pos() <= pos && pos < is.Body.End() && strings.Contains(types.ExprString(is.Cond), "OsWindows") && strings.Contains(types.ExprString(is.Cond), "==") {
+			pol, ok := winCond(is.Cond)
+			if !ok {
+				return true
+			}
+			if is.Body.Pos() <= pos && pos < is.Body.End() && pol {
+				w = true
+			}
+			if is.Else != nil && is.Else.Pos() <= pos && pos < is.Else.End() && !pol {
 				w = true
 			}
 			return true
@@ -797,7 +818,7 @@ func init() {
 		Text: "a batched listing that reached its end starts afresh: in ReadDir and Readdirnames of MemFile and OrefaFile every return carrying io.EOF is preceded, in its own block or a dominating one after the end was detected, by a store of nil to the handle's snapshot (dirEntries / dirNames) - a snapshot kept beyond EOF is replayed by the next ReadDir(n>0) on the handle, which then enumerates names that no longer exist and misses new ones (os.File reads the directory again)",
 		Run:  c14EOFDrop})
 	register(&Rule{ID: "C05.release", Floor: 2,
-		Text: "OrefaFS never drops a path from its index during a removal without releasing the node behind it: in Remove and removeAll every delete on the nodes map is dominated by a call of node.remove in the same function (remove() is where the link counter goes down) - an index entry deleted alone leaves Nlink counting a name that is gone on every other hard link of the file",
+		Text: "OrefaFS never drops a path from its index during a removal without releasing the node behind it: in Remove and removeAll every delete on the nodes map is dominated by a call of node.remove in the same function, or by the decrement of the node's nlink field written out in its place (that is where the link counter goes down) - an index entry deleted alone leaves Nlink counting a name that is gone on every other hard link of the file",
 		Run:  c05Release})
 }
 
@@ -903,6 +924,16 @@ func c05Release(rc *RuleCtx) {
 				rel = append(rel, c.(ssa.Instruction))
 			}
 		})
+		// the release written out where it happens: a decrement of the nlink field
+		eachInstr(f, func(in ssa.Instruction) {
+			if st, ok := in.(*ssa.Store); ok {
+				if fa, ok := st.Addr.(*ssa.FieldAddr); ok && fieldName(fa.X.Type(), fa.Field) == "nlink" {
+					if b, ok := strip(st.Val).(*ssa.BinOp); ok && b.Op == token.SUB {
+						rel = append(rel, in)
+					}
+				}
+			}
+		})
 		n := 0
 		var badAt token.Pos
 		eachCall(f, func(c ssa.CallInstruction) {
@@ -929,4 +960,106 @@ func c05Release(rc *RuleCtx) {
 			rc.good(cons, f.Pos(), fmt.Sprintf("%d deletions from the index, each after node.remove", n))
 		}
 	}
+}
+
+func orNil(e ast.Expr) ast.Expr {
+	if e == nil {
+		return &ast.BadExpr{}
+	}
+	return e
+}
+
+// winCond: the condition is `X == OsWindows` (true, ok), `X != OsWindows` (false, ok), under any number of `!` and
+// parentheses; anything else (a conjunction, a helper call) gives ok=false and the branch is compared with the Linux table
+// only if it assigns an Op at all.
+func winCond(e ast.Expr) (isWindows, ok bool) {
+	neg := false
+	for {
+		e = ast.Unparen(e)
+		u, isU := e.(*ast.UnaryExpr)
+		if !isU || u.Op != token.NOT {
+			break
+		}
+		neg = !neg
+		e = u.X
+	}
+	b, isB := e.(*ast.BinaryExpr)
+	if !isB || (b.Op != token.EQL && b.Op != token.NEQ) {
+		return false, false
+	}
+	isW := func(x ast.Expr) bool {
+		switch y := ast.Unparen(x).(type) {
+		case *ast.SelectorExpr:
+			return y.Sel.Name == "OsWindows"
+		case *ast.Ident:
+			return y.Name == "OsWindows"
+		}
+		return false
+	}
+	if !isW(b.X) && !isW(b.Y) {
+		return false, false
+	}
+	return (b.Op == token.EQL) != neg, true
+}
+
+// singleDef: the initialiser of a local variable that is defined once (`:=` or var) and never assigned again nor has its address taken.
+func singleDef(info *types.Info, fd *ast.FuncDecl, obj types.Object) ast.Expr {
+	if obj == nil || !isLocalVar(obj) {
+		return nil
+	}
+	var init ast.Expr
+	n, spoiled := 0, false
+	ast.Inspect(fd.Body, func(nd ast.Node) bool {
+		switch x := nd.(type) {
+		case *ast.AssignStmt:
+			for i, l := range x.Lhs {
+				id, isID := l.(*ast.Ident)
+				if !isID {
+					continue
+				}
+				if info.Defs[id] == obj {
+					n++
+					if len(x.Lhs) == len(x.Rhs) {
+						init = x.Rhs[i]
+					} else {
+						spoiled = true
+					}
+				} else if info.Uses[id] == obj {
+					spoiled = true
+				}
+			}
+		case *ast.ValueSpec:
+			for i, nm := range x.Names {
+				if info.Defs[nm] == obj {
+					n++
+					if i < len(x.Values) && len(x.Values) == len(x.Names) {
+						init = x.Values[i]
+					} else {
+						spoiled = true
+					}
+				}
+			}
+		case *ast.UnaryExpr:
+			if x.Op == token.AND {
+				if id, isID := ast.Unparen(x.X).(*ast.Ident); isID && info.Uses[id] == obj {
+					spoiled = true
+				}
+			}
+		case *ast.IncDecStmt:
+			if id, isID := ast.Unparen(x.X).(*ast.Ident); isID && info.Uses[id] == obj {
+				spoiled = true
+			}
+		case *ast.RangeStmt:
+			for _, e := range []ast.Expr{x.Key, x.Value} {
+				if id, isID := e.(*ast.Ident); isID && (info.Defs[id] == obj || info.Uses[id] == obj) {
+					spoiled = true
+				}
+			}
+		}
+		return true
+	})
+	if n != 1 || spoiled {
+		return nil
+	}
+	return init
 }
